@@ -113,10 +113,12 @@ static errcode_t stub_flush(io_channel c) { (void) c; vf_nflush++; return 0; }
 static errcode_t stub_set_blksize(io_channel c, int s) { (void) c; vf_blksize = s; return 0; }
 
 #if MODE == 3
-/* BOUND: MODE 3: the images differ from each other only in s_wtime (0x30, lower half), s_checksum_seed (0x270, upper
- * half) -- concrete values per query (-DLO_O/-DLO_A/-DLO_B, -DUP_O/-DUP_A/-DUP_B) -- and in s_checksum (0x3FC, the last
- * two 16-bit words), fully symbolic in all three images.  (A symbolic difference anywhere but at the very end makes the
- * loop counter of the word-compare loop symbolic for the remaining ~500 iterations.) */
+/* BOUND: MODE 3: the open-time image and the images A, B differ from each other only in s_wtime (0x30, lower half),
+ * s_checksum_seed (0x270, upper half) and s_checksum (0x3FC) with CONCRETE values per query (-DLO_x / -DUP_x / -DCS_x,
+ * x in O, A, B): which words differ is a compile-time pattern (changed and changed back; unchanged then changed; ...).
+ * A symbolic word makes the counter of the real word-compare loop symbolic and every later iteration (and every run
+ * of the inner loop) unwinds to its bound: no verdict in 150 s even with the symbolic word last.  So this mode is a
+ * solver-executed concrete scenario, not a for-all statement. */
 #ifndef LO_O
 #define LO_O 1
 #define LO_A 2
@@ -126,6 +128,11 @@ static errcode_t stub_set_blksize(io_channel c, int s) { (void) c; vf_blksize = 
 #define UP_O 1
 #define UP_A 2
 #define UP_B 1
+#endif
+#ifndef CS_O
+#define CS_O 0x11111111u
+#define CS_A 0x22222222u
+#define CS_B 0x11111111u
 #endif
 /* the three images are laid out as 16 chunks of 64 bytes (same memory as a superblock): CBMC keeps per-element
  * constants only for arrays of <= 64 elements, and the real word-compare loop must see the equal words as constants */
@@ -188,9 +195,9 @@ int main(void)
 
 	VF_INPUT(IN);
 #if MODE == 3
-	vf_img_set(&vf_orig, LO_O, UP_O, IN.csum_o);
-	vf_img_set(&vf_imgA, LO_A, UP_A, IN.csum_a);
-	vf_img_set(&vf_imgB, LO_B, UP_B, IN.csum_b);
+	vf_img_set(&vf_orig, LO_O, UP_O, CS_O);
+	vf_img_set(&vf_imgA, LO_A, UP_A, CS_A);
+	vf_img_set(&vf_imgB, LO_B, UP_B, CS_B);
 	for (i = 0; i < 1024; i++)
 		vf_dev[i] = ((unsigned char *) &vf_orig)[i];	/* orig_super is the image read at open time */
 	vf_mgr.write_byte = stub_write_byte;
